@@ -129,11 +129,12 @@ def work_extract(chunk):
         alpha = {"task": TS, "component": CS, "worker": WS, "facility": FS}[kind]
         timelists = [list(c) for k in range(0, 4) for c in itertools.combinations(range(4), k)]
         seqs = [list(s) for L in range(0, length + 1) for s in itertools.product(alpha, repeat=L)]
-        for logs in itertools.combinations_with_replacement(range(len(seqs)), nobj):
+        for logs, same_name in itertools.product(itertools.combinations_with_replacement(range(len(seqs)), nobj), (False, True) if nobj > 1 else (False,)):
             objs = []
             for i, li in enumerate(logs):
                 nm = "%s%d" % (kind[0], i)
-                o = {"task": BaseTask, "component": BaseComponent, "worker": BaseWorker, "facility": BaseFacility}[kind](nm, ID=nm)
+                # objects may share a name (skills are keyed by name); IDs are what tells them apart
+                o = {"task": BaseTask, "component": BaseComponent, "worker": BaseWorker, "facility": BaseFacility}[kind]("x" if same_name else nm, ID=nm)
                 o.state_record_list = list(seqs[li])
                 objs.append(o)
             if kind == "task":
@@ -160,12 +161,12 @@ def work_extract(chunk):
                         col.violation(viol("C19:extract-raised:%s:%s" % (kind, type(e).__name__), {"kind": kind, "logs": [[int(s) for s in seqs[li]] for li in logs], "times": tl, "error": repr(e)}))
                         continue
                     want = [o for o in objs if all(t < len(o.state_record_list) and o.state_record_list[t] == st for t in tl)]
-                    key = (kind, logs, tuple(tl), int(st))
+                    key = (kind, logs, same_name, tuple(tl), int(st))
                     col.states.add(hash(key))
                     if want and len(want) < len(objs):
                         col.nontrivial.add(hash(key))
                     if sorted(map(id, got)) != sorted(map(id, want)):
-                        col.violation(viol("C19:extract-returns-wrong-objects:%s" % kind, {"kind": kind, "state": int(st), "logs": [[int(s) for s in seqs[li]] for li in logs], "times": tl,
+                        col.violation(viol("C19:extract-returns-wrong-objects:%s" % kind, {"kind": kind, "state": int(st), "logs": [[int(s) for s in seqs[li]] for li in logs], "times": tl, "objects_share_one_name": same_name,
                                                                                          "got": [o.ID for o in got], "expected": [o.ID for o in want]}))
     return col
 
@@ -298,7 +299,7 @@ def run(tier, seed):
         "level": "exploration",
         "rule": "every state sequence of length <= %d over {NONE,READY,WORKING,FINISHED} for tasks and components and of length <= %d over {FREE,WORKING,ABSENCE} for workers and facilities x finish margins "
         "{0,0.5,1}: get_time_list_for_gannt_chart must return exactly the maximal runs (start, length-1+margin); chart rows for unit 1 minute / 1 day (lengths <= 5) must map index k to init+k*unit; every "
-        "multiset of <= 3 logs (all sequences up to a length bound) x every time list within {0..3} x every state: extract_* of workflow/product/team/workplace must return exactly the matching objects; "
+        "multiset of <= 3 logs (all sequences up to a length bound; objects with distinct names and all sharing one name) x every time list within {0..3} x every state: extract_* of workflow/product/team/workplace must return exactly the matching objects; "
         "set_last_datetime for time 1..7 x units x flags x dates, and on real results (simulate with absence lists incl. beyond-the-end and duplicated steps, with and without remove_absence_time_list); "
         "container-level chart data of workflow / product / organization must equal the concatenation of the members' rows for margins {0,0.5,1,2}; non-trivial = sequences with at least two different states / queries selecting a proper non-empty subset" % (L_t, L_r),
         "bounds": {"task_seq_len": L_t, "resource_seq_len": L_r},
